@@ -29,6 +29,7 @@ func checkC13(c *Ctx) {
 	c.checkTokenAuth()
 	c.checkReplyObligation()
 	c.checkPanicCensus()
+	c.checkValidatorInitialised()
 }
 
 // ---------------------------------------------------------------------------------------------
